@@ -907,4 +907,25 @@ mod verif_replay_interp {
 </scxml>"###;
         assert_eq!(run(doc, &[]), fin("pass"));
     }
+
+    /// C08: an erroneous <param expr> / <content expr> of a <send> places error.execution on the internal queue once
+    /// (the name/value is ignored and the block carries on), not once per layer that noticed the failure
+    #[test]
+    fn verif_replay_interp_single_error_event() {
+        for c in [
+            r#"<send event="e"><param name="p" expr="nosuch"/></send>"#,
+            r#"<send event="e"><content expr="nosuch"/></send>"#,
+        ] {
+            let doc = format!(
+                r###"<scxml xmlns="http://www.w3.org/2005/07/scxml" initial="s0" version="1.0" datamodel="rfsm-expression">
+ <state id="s0"><onentry>{}<raise event="probe"/></onentry>
+  <transition event="error.execution" target="s1"/><transition event="probe" target="none"/></state>
+ <state id="s1"><transition event="error.execution" target="twice"/><transition event="probe" target="once"/></state>
+ <final id="none"/><final id="once"/><final id="twice"/>
+</scxml>"###,
+                c
+            );
+            assert_eq!(run(&doc, &[]), fin("once"), "content {}", c);
+        }
+    }
 }
